@@ -292,7 +292,32 @@ def r6_algorithms_keep_weights(ctx):
     ctx.ok("C06.R6", ("leaspy.algo", "<package>"), None, f"{n} construction(s) of weighted tensors in leaspy.algo / leaspy.samplers; none drops the weights", construct="algo layer")
 
 
+def r8_state_stores_data_unchecked(ctx):
+    """What sits under the mask of a data variable (the fill of a missing entry, of a padded visit) is arbitrary: loading the data into a
+    State never looks at the values - a refusal, a warning or a branch that depends on the raw content also depends on the masked entries."""
+    from ..astq import Canon
+    ctx.rule("C06.R8", "State.__setitem__ / put_data_variables take no decision on the content of the value they store", 2)
+    for mod, qual in (("leaspy.variables.state", "State.__setitem__"), ("leaspy.models.mcmc_saem_compatible", "McmcSaemCompatibleModel.put_data_variables"),
+                      ("leaspy.models.mcmc_saem_compatible", "McmcSaemCompatibleModel._put_data_timepoints")):
+        f = ctx.ix.try_func(mod, qual)
+        if f is None:
+            continue
+        cfg = CFG(f.node)
+        cn = Canon(f.node)
+        CONTENT = ("isfinite", "isnan", "isinf", ".any()", ".all()", ".max()", ".min()", ".sum()", ".mean()", ".item()", "allclose", "torch.equal")
+        bad = None
+        for h in cfg.nodes(lambda s_: isinstance(s_, (ast.If, ast.While, ast.Assert))):
+            t = cn.text(cfg.stmt[h].test, True)
+            if any(tok in t for tok in CONTENT) and (".value" in t or "dataset." in t or any(p_ in t for p_ in ("$1", "$2"))):
+                bad = (cfg.stmt[h], t)
+                break
+        ctx.check(bad is None, "C06.R8", f, bad[0] if bad else f.node, "no test on the content of the stored value",
+                  f"`{bad[1][:90] if bad else ''}` decides on the raw content of the value being stored: the entries under the mask (fill values of missing / padded observations) "
+                  "take part in it, so an arbitrary fill value changes the outcome (an exception instead of a result)")
+
+
 def rules(ctx):
+    r8_state_stores_data_unchecked(ctx)
     r1_weighted_tensor(ctx)
     r5_raw_padded_tensors(ctx)
     r6_algorithms_keep_weights(ctx)
